@@ -129,7 +129,8 @@ def impl(case):
             else:
                 subs.append(cf.CoordinateFrame(naxes=1, axes_type=(t.upper(),), axes_order=(i,), unit=(u.m,), name="ax%d" % i,
                                                axes_names=("a%d" % i,), axis_physical_types=("custom:a%d" % i,)))
-        out = subs[0] if nout == 1 else cf.CompositeFrame(subs, name="world")
+        # (the frames of a composite need not be listed in world-axis order: each names its axis)
+        out = subs[0] if nout == 1 else cf.CompositeFrame(subs[::-1] if case.get("listed_reversed") else subs, name="world")
     mids = [G.frame_obj("mid%d" % i, 1) for i in range(len(case["trs"]) - 2)]
     frames = [det] + mids + [out]
     built = [None if t is None else G.build(t) for t in case["trs"]]
@@ -149,6 +150,8 @@ def impl(case):
         b = _bb_arg(case["bb"])
         # a 1-D box may be passed the way the WCS's own box is assigned: (start, stop)
         kw["bounding_box"] = b[0] if (len(b) == 1 and case.get("flat_bb")) else b
+        if case.get("bb_as_array"):
+            kw["bounding_box"] = np.array(kw["bounding_box"])     # the limits computed as an array (np.array(...) - 0.5)
     raw = {"types_raw": [str(t) for t in w.output_frame.axes_type], "axis_type_raw": kw["axis_type"]}
     try:
         r = np.asarray(w.footprint(**kw))
@@ -406,4 +409,5 @@ def gen(rng, tier):
         own = box() if rng.random() < 0.75 else None
         bb = box() if rng.random() < 0.45 else None
         yield {"kind": "footprint", "trs": trs, "dims": dims, "axes_type": types, "own": own, "own_on_model": rng.random() < 0.35, "bb": bb, "center": rng.random() < 0.5,
-               "axis_type": rng.choice(["all", "all", "spatial", "spectral", "temporal", "custom"]), "spelling": rng.choice([None, None, "upper", "title"]), "real_frames": rng.random() < 0.4, "flat_bb": rng.random() < 0.5}
+               "axis_type": rng.choice(["all", "all", "spatial", "spectral", "temporal", "custom"]), "spelling": rng.choice([None, None, "upper", "title"]), "real_frames": rng.random() < 0.4, "flat_bb": rng.random() < 0.5,
+               "listed_reversed": _ % 2 == 1, "bb_as_array": _ % 3 == 1}
